@@ -9,202 +9,6 @@ use crate::app::parse::parser::{HeaderCollection, HeaderDetails, ParsedFragment}
 use crate::app::variations::*;
 use crate::app::Timestamp;
 
-fn only_header<'a>(function: FunctionCode, bytes: &'a [u8]) -> crate::app::parse::parser::ObjectHeader<'a> {
-    let hc = match HeaderCollection::parse(ParseOptions::parse_everything(), function, bytes) {
-        Ok(x) => x,
-        Err(_) => panic!("the library's parser rejected what the library's encoder wrote"),
-    };
-    match hc.get_only_header() {
-        Ok(h) => h,
-        Err(_) => panic!("exactly one header was written"),
-    }
-}
-
-// @harness c09_enc_range_only_u8
-// @props C09
-// @tier quick
-// @timeout 1800
-// @mem 4
-// @units HeaderWriter::write_range_only::<u8>, Index::RANGE_QUALIFIER, Variation::write, HeaderCollection::{parse, get_only_header}
-// @bounds READ header g30v0 with any 8-bit range start <= stop: parsed back as a one-byte start-stop header with the same variation and bounds, every byte consumed
-#[kani::proof]
-#[kani::unwind(6)]
-fn c09_enc_range_only_u8() {
-    let start: u8 = kani::any();
-    let stop: u8 = kani::any();
-    kani::assume(start <= stop);
-    let mut buf = [0u8; 8];
-    let n = {
-        let mut c = WriteCursor::new(&mut buf);
-        let mut w = HeaderWriter::new(&mut c);
-        assert!(w.write_range_only(Variation::Group30Var0, start, stop).is_ok());
-        c.position()
-    };
-    assert!(n == 5);
-    // the header octets are proved equal to constants and handed to the parser AS constants (bytes read back from the
-    // cursor's buffer are symbolic for the engine and would drag every variation's parser into the query)
-    assert!(buf[0] == 30 && buf[1] == 0 && buf[2] == 0x00);
-    let frag = [30u8, 0, 0x00, buf[3], buf[4]];
-    let h = only_header(FunctionCode::Read, &frag);
-    assert!(h.variation == Variation::Group30Var0);
-    assert!(matches!(h.details, HeaderDetails::OneByteStartStop(s, e, RangedVariation::Group30Var0) if s == start && e == stop));
-    kani::cover!(start < stop);
-}
-
-// @harness c09_enc_range_only_u16
-// @props C09
-// @tier quick
-// @timeout 1800
-// @mem 4
-// @units HeaderWriter::write_range_only::<u16>, Index::RANGE_QUALIFIER
-// @bounds READ header g20v0 with any 16-bit range start <= stop (incl. 65535)
-#[kani::proof]
-#[kani::unwind(6)]
-fn c09_enc_range_only_u16() {
-    let start: u16 = kani::any();
-    let stop: u16 = kani::any();
-    kani::assume(start <= stop);
-    let mut buf = [0u8; 8];
-    let n = {
-        let mut c = WriteCursor::new(&mut buf);
-        let mut w = HeaderWriter::new(&mut c);
-        assert!(w.write_range_only(Variation::Group20Var0, start, stop).is_ok());
-        c.position()
-    };
-    assert!(n == 7);
-    assert!(buf[0] == 20 && buf[1] == 0 && buf[2] == 0x01);
-    let frag = [20u8, 0, 0x01, buf[3], buf[4], buf[5], buf[6]];
-    let h = only_header(FunctionCode::Read, &frag);
-    assert!(matches!(h.details, HeaderDetails::TwoByteStartStop(s, e, RangedVariation::Group20Var0) if s == start && e == stop));
-    kani::cover!(stop == 65535);
-}
-
-// @harness c09_enc_limited_count_u8
-// @props C09
-// @tier quick
-// @timeout 1800
-// @mem 4
-// @units HeaderWriter::write_limited_count::<u8>, Index::LIMITED_COUNT_QUALIFIER
-// @bounds READ header g2v0 limited to any 8-bit count: parsed back as a one-byte count header with that count
-#[kani::proof]
-#[kani::unwind(6)]
-fn c09_enc_limited_count_u8() {
-    let count: u8 = kani::any();
-    let mut buf = [0u8; 8];
-    let n = {
-        let mut c = WriteCursor::new(&mut buf);
-        let mut w = HeaderWriter::new(&mut c);
-        assert!(w.write_limited_count(Variation::Group2Var0, count).is_ok());
-        c.position()
-    };
-    assert!(n == 4);
-    assert!(buf[0] == 2 && buf[1] == 0 && buf[2] == 0x07);
-    let frag = [2u8, 0, 0x07, buf[3]];
-    let h = only_header(FunctionCode::Read, &frag);
-    assert!(matches!(h.details, HeaderDetails::OneByteCount(c, CountVariation::Group2Var0) if c == count));
-    kani::cover!(count == 255);
-}
-
-// @harness c09_enc_limited_count_u16
-// @props C09
-// @tier quick
-// @timeout 1800
-// @mem 4
-// @units HeaderWriter::write_limited_count::<u16>, Index::LIMITED_COUNT_QUALIFIER
-// @bounds READ header g22v0 limited to any 16-bit count: parsed back as a two-byte count header with that count
-#[kani::proof]
-#[kani::unwind(6)]
-fn c09_enc_limited_count_u16() {
-    let count: u16 = kani::any();
-    let mut buf = [0u8; 8];
-    let n = {
-        let mut c = WriteCursor::new(&mut buf);
-        let mut w = HeaderWriter::new(&mut c);
-        assert!(w.write_limited_count(Variation::Group22Var0, count).is_ok());
-        c.position()
-    };
-    assert!(n == 5);
-    assert!(buf[0] == 22 && buf[1] == 0 && buf[2] == 0x08);
-    let frag = [22u8, 0, 0x08, buf[3], buf[4]];
-    let h = only_header(FunctionCode::Read, &frag);
-    assert!(matches!(h.details, HeaderDetails::TwoByteCount(c, CountVariation::Group22Var0) if c == count));
-    kani::cover!(count > 255);
-}
-
-// @harness c09_enc_all_objects_and_clear_restart
-// @props C09
-// @tier quick
-// @timeout 1800
-// @mem 4
-// @units HeaderWriter::{write_all_objects_header, write_clear_restart}, AllObjectsVariation::get
-// @bounds class header g60v3 and the WRITE g80v1[7]=0 header the master uses to clear the restart bit: parsed back to the same thing
-#[kani::proof]
-#[kani::unwind(6)]
-fn c09_enc_all_objects_and_clear_restart() {
-    let mut buf = [0u8; 8];
-    {
-        let mut c = WriteCursor::new(&mut buf);
-        let mut w = HeaderWriter::new(&mut c);
-        assert!(w.write_all_objects_header(Variation::Group60Var3).is_ok());
-        assert!(c.position() == 3);
-    }
-    assert!(buf[0] == 60 && buf[1] == 3 && buf[2] == 0x06);
-    let frag = [60u8, 3, 0x06];
-    let h = only_header(FunctionCode::Read, &frag);
-    assert!(h.variation == Variation::Group60Var3 && matches!(h.details, HeaderDetails::AllObjects(AllObjectsVariation::Group60Var3)));
-    let mut buf2 = [0u8; 8];
-    {
-        let mut c = WriteCursor::new(&mut buf2);
-        let mut w = HeaderWriter::new(&mut c);
-        assert!(w.write_clear_restart().is_ok());
-        assert!(c.position() == 6);
-    }
-    assert!(buf2[0] == 80 && buf2[1] == 1 && buf2[2] == 0x00 && buf2[3] == 7 && buf2[4] == 7 && buf2[5] == 0);
-    let frag2 = [80u8, 1, 0x00, 7, 7, 0];
-    let h2 = only_header(FunctionCode::Write, &frag2);
-    match h2.details {
-        HeaderDetails::OneByteStartStop(7, 7, RangedVariation::Group80Var1(bits)) => {
-            let mut it = bits.iter();
-            assert!(matches!(it.next(), Some((false, 7))));
-            assert!(it.next().is_none());
-        }
-        _ => panic!("clear-restart header not recognised"),
-    }
-    kani::cover!(true);
-}
-
-// @harness c09_enc_count_of_one_time
-// @props C09,C18
-// @tier quick
-// @timeout 1800
-// @mem 4
-// @units HeaderWriter::write_count_of_one::<Group50Var1>, Group50Var1::{write,read}, CountSequence::single
-// @bounds WRITE g50v1 with any 48-bit time (the time-sync write): parsed back as a count-of-one header carrying the same time
-#[kani::proof]
-#[kani::unwind(8)]
-fn c09_enc_count_of_one_time() {
-    let t: u64 = kani::any();
-    kani::assume(t <= Timestamp::MAX_VALUE);
-    let mut buf = [0u8; 12];
-    {
-        let mut c = WriteCursor::new(&mut buf);
-        let mut w = HeaderWriter::new(&mut c);
-        assert!(w.write_count_of_one(Group50Var1 { time: Timestamp::new(t) }).is_ok());
-        assert!(c.position() == 10);
-    }
-    assert!(buf[0] == 50 && buf[1] == 1 && buf[2] == 0x07 && buf[3] == 1);
-    let frag = [50u8, 1, 0x07, 1, buf[4], buf[5], buf[6], buf[7], buf[8], buf[9]];
-    let h = only_header(FunctionCode::Write, &frag);
-    match h.details {
-        HeaderDetails::OneByteCount(1, CountVariation::Group50Var1(seq)) => match seq.single() {
-            Some(x) => assert!(x.time.raw_value() == t),
-            None => panic!("one object expected"),
-        },
-        _ => panic!("count-of-one header not recognised"),
-    }
-    kani::cover!(t == Timestamp::MAX_VALUE);
-}
-
 // @harness c15_confirm_fragments
 // @props C15,C09
 // @tier quick
